@@ -50,9 +50,10 @@ Proof. induction sks as [|x sks IH]; intros st; cbn; auto. rewrite IH. reflexivi
 
 Lemma step_labels_mono : forall st o e, In e (ix_labels st) -> In e (ix_labels (ix_step st o)).
 Proof.
-  intros st [K s c|Q] e H; cbn.
+  intros st [K s c|Q|K] e H; cbn.
   - apply put_labels_mono. exact H.
   - unfold ix_delete. destruct (ix_select Q st); auto. rewrite delete_fold_labels. exact H.
+  - exact H.
 Qed.
 
 Lemma run_labels_mono : forall ops st e, In e (ix_labels st) -> In e (ix_labels (fold_left ix_step ops st)).
@@ -371,10 +372,13 @@ Proof.
 Qed.
 
 Definition op_ok (o : iop) : Prop :=
-  match o with IPut K _ _ => key_ok K | IDelete Q => key_ok Q end.
+  match o with IPut K _ _ => key_ok K | IDelete Q => key_ok Q | IDrop K => key_ok K end.
 
 Lemma step_inv : forall st L o, Inv st L -> op_ok o -> Inv (ix_step st o) (live_step L o).
-Proof. intros st L [K s c|Q] HI Ho; cbn [ix_step]; [apply put_inv|apply delete_inv]; auto. Qed.
+Proof.
+  intros st L [K s c|Q|K] HI Ho; cbn [ix_step live_step];
+    [apply put_inv|apply delete_inv|apply delete_series_inv]; auto.
+Qed.
 
 Lemma run_inv_gen : forall ops st L, Inv st L -> Forall op_ok ops ->
   Inv (fold_left ix_step ops st) (fold_left live_step ops L).
@@ -412,8 +416,9 @@ Qed.
 Lemma live_step_In : forall L o K, In K (live_step L o) ->
   In K L \/ exists s c, o = IPut K s c.
 Proof.
-  intros L [K0 s c|Q] K H; cbn in H.
+  intros L [K0 s c|Q|K0] K H; cbn in H.
   - destruct (existsb (labels_eqb K0) L); auto. apply in_app_iff in H. destruct H as [H|[<-|[]]]; eauto.
+  - apply filter_In in H. tauto.
   - apply filter_In in H. tauto.
 Qed.
 
@@ -482,10 +487,11 @@ Lemma run_labels_only : forall ops st e, In e (ix_labels (fold_left ix_step ops 
 Proof.
   induction ops as [|o ops IH]; intros st e H; cbn in H; auto.
   apply IH in H. destruct H as [H|[K [s [c [k [v [H1 H2]]]]]]].
-  - destruct o as [K s c|Q]; cbn in H.
+  - destruct o as [K s c|Q|K]; cbn in H.
     + apply put_labels_only in H. destruct H as [H|[k [v [Hkv He]]]]; auto.
       right. exists K, s, c, k, v. cbn. auto.
     + unfold ix_delete in H. destruct (ix_select Q st); auto. rewrite delete_fold_labels in H. auto.
+    + auto.
   - right. exists K, s, c, k, v. cbn. auto.
 Qed.
 
